@@ -682,6 +682,9 @@ func parse15Gen(tier string, r *rng, emit func(string)) {
 		}
 		for _, k := range cuts {
 			emit(hx(s) + "@" + strconv.Itoa(k))
+			if r.intn(4) == 0 { // part 1 on the prefix itself (file mode may accept it silently)
+				emit(hx(s[:k]))
+			}
 		}
 	}
 	n := 1200
